@@ -331,3 +331,16 @@ reg("C18", "c18",
     "agrees with a rebuild, and the clock file holds the memory value.",
     "Real schedules are sampled, not enumerated. Known finding (design): eviction of instances still held by a goroutine.",
     "DESIGN.md section 4, C18")
+
+reg("C17", "c17",
+    "TLA+ spec Api.tla / MC_Api model-checked by TLC; every mutation found by introspection exercised on the real handlers with "
+    "and without the authentication middleware; observations validated by TLC",
+    "Api.tla states what each kind of request may report and change (no user: refused and the repository unchanged; user and "
+    "well-formed: exactly the operations the mutation stands for, authored by the user, returned bug reflecting them, no other "
+    "bug touched; ill-formed: error and no change; queries always served and never changing anything; upload likewise) and TLC "
+    "checks the design against it. The harness builds the router like `git-bug webui` does, lists the Mutation type by "
+    "introspection (new mutations are picked up), derives inputs from the input types, and for every mutation sends well-formed "
+    "and ill-formed requests with and without the middleware, plus queries and uploads, comparing every ref, the number of git "
+    "objects and what the cache serves before and after; TLC accepts the recorded observations only if each satisfies its rule.",
+    "In-process HTTP (httptest); gqlgen trusted. Expected operation counts are known for the nine current mutations; a new "
+    "mutation is checked for the gate, authorship and locality.", "DESIGN.md section 4, C17")
